@@ -152,6 +152,11 @@ func overlap(cfg hlib.ChanCfg, arg closeArg, eps []hlib.EP, bound int) *explore.
 			return s
 		},
 		Check: func(x *vsched.Exec, v any) []explore.Finding {
+			// Only calls that began after Close had returned are judged. A call issued while Close is
+			// still in progress (IsActive() already false) can pass the closed check and then lose its
+			// payload - on the pinned tree too (2 preemptions, every queued entry point). That window
+			// belongs to the concurrent case which the property's "after Close has returned" /
+			// "closed before the call" does not cover under the reading chosen in DESIGN.md §5/C11.
 			return judge(v.(*obs), cfg, arg, "background")
 		},
 	}
